@@ -26,7 +26,7 @@ COQ_EXPLAIN = 'Singleton.explain_case'
 SHARD = 400
 WORKERS = 1
 RULE = ('three lock-step case kinds. single: histories over Req/OpenPool/ClosePool/OpenDone/Fault/Resume on the real '
-        'SingletonPoolSink with a mock provider (exhaustive over a 10-label alphabet to depth 3 (quick) / 5 (thorough), '
+        'SingletonPoolSink with a mock provider (exhaustive over a 10-label alphabet to depth 4 (quick) / 5 (thorough), '
         'scenario templates with k = 1..6 concurrent first requests resumed in every rotation/reversal, seeded random '
         'histories of 4..40 labels incl. create failures, faults of old sinks, resumes of unknown/blocked tasks); '
         'ref: every Open/Close sequence up to length 9 (quick) / 12 (thorough) on the real RefCountedSink plus random '
@@ -448,9 +448,20 @@ def run_shared(case):
   prov = _S['SharedSinkProvider'](lambda p: p['key'])
   prov.next_provider = Next()
   holders = {}
+  do_gc = bool(case.get('gc'))
+  if do_gc:
+    gc.freeze()         # collections during this case look only at objects created from here on
+  try:
+    return _run_shared_ops(case, w, prov, holders, do_gc)
+  finally:
+    holders.clear()
+    if do_gc:
+      gc.unfreeze()
+
+
+def _run_shared_ops(case, w, prov, holders, do_gc):
   nref = 0
   steps = []
-  do_gc = bool(case.get('gc'))
   for op in case['ops']:
     if op[0] == 'create':
       obj = prov.CreateSink({'key': _KEYS[op[1]]})
@@ -472,7 +483,6 @@ def run_shared(case):
       steps.append({'ev': w.take(), 'drop': r})
     else:
       raise ValueError(op[0])
-  holders.clear()
   return {'steps': steps}
 
 
@@ -596,13 +606,13 @@ def _rand_shared(r):
       ops.append(['create', r.choice([1, 1, 2, 2, 3, 0, -1, -2])])
     else:
       ops.append(['drop', r.choice([['rel', r.randrange(0, 6)], ['rel', 0], r.randrange(0, 10)])])
-  return {'kind': 'shared', 'ops': ops, 'gc': r.random() < 0.15}
+  return {'kind': 'shared', 'ops': ops, 'gc': r.random() < 0.5}
 
 
 def gen_cases(tier, seed):
   quick = tier == 'quick'
   out = list(_templates())
-  depth = 3 if quick else 5
+  depth = 4 if quick else 5
   for d in range(1, depth + 1):
     for combo in itertools.product(range(len(ALPHA)), repeat=d):
       out.append({'kind': 'single', 'ops': [ALPHA[i] for i in combo]})
